@@ -109,8 +109,10 @@ def run(ck, P):
             if c["op"] == ">":
                 a -= 1
             counted.append((b, a, S(cond)))
-        elif S(c) in ("m_itr",) or c["k"] == "var":
-            continue   # iterator exhaustion
+        elif S(c) in ("m_itr",) or c["k"] == "var" or (c["k"] == "bin" and c["op"] in ("!=", "==") and strip(c["l"])["k"] == "var"
+                                                       and (strip(c["r"])["k"] == "null" or cval(c["r"]) == 0)) \
+                or (c["k"] == "un" and c["op"] == "!" and strip(c["e"])["k"] == "var"):
+            continue   # iterator exhaustion, however the NULL test is spelt
         else:
             raise AnalysisBroken("m_mod_unstash: loop exit '%s' not modelled (R-TRIPCOUNT handles counted exits on `%s`)" % (S(cond), lenp))
     if not counted:
